@@ -929,4 +929,10 @@ def rule_o(ctx: Ctx) -> None:
                 '(control dependence, truth table, or left operand of the same conjunction).')
 
 
-RULES = [rule_a, rule_b, rule_c, rule_d, rule_e, rule_f, rule_g, rule_h, rule_i, rule_j, rule_k, rule_l, rule_m, rule_n, rule_o]
+def rule_p(ctx: Ctx) -> None:
+    """A caller/callee contract whose breach is a plain ValueError out of lax validation (C03.a checks the same pairing for the attribute verdict)."""
+    from .c03 import wildcard_pair_contract
+    wildcard_pair_contract(ctx, 'C11.p')
+
+
+RULES = [rule_a, rule_b, rule_c, rule_d, rule_e, rule_f, rule_g, rule_h, rule_i, rule_j, rule_k, rule_l, rule_m, rule_n, rule_o, rule_p]
